@@ -100,11 +100,25 @@ def run(job):
     if op == 'write_read':
         try:
             fd = build(job['mesh'])
-            fd.write('fistr', d / 'mesh', overwrite=True,
-                     **({'write_msh_only': True} if job.get('msh_only') else {}))
+            kw = {'write_msh_only': True} if job.get('msh_only') else {}
+            before = dump(fd)
+            fd.write('fistr', d / 'mesh', overwrite=True, **kw)
             res['msh'] = (d / 'mesh.msh').read_text()
             if (d / 'mesh.cnt').exists():
                 res['cnt'] = (d / 'mesh.cnt').read_text()
+            # the caller's mesh after the write, and a second write of the same object
+            after = dump(fd)
+            res['mutated'] = [k for k in ('node_ids', 'coords', 'elems', 'egroups', 'sections',
+                                          'initial', 'constraints')
+                              if before.get(k) != after.get(k)]
+            try:
+                (d / 'second').mkdir()
+                fd.write('fistr', d / 'second' / 'mesh', overwrite=True, **kw)
+                res['msh2'] = (d / 'second' / 'mesh.msh').read_text()
+                if (d / 'second' / 'mesh.cnt').exists():
+                    res['cnt2'] = (d / 'second' / 'mesh.cnt').read_text()
+            except Exception as e:  # noqa
+                res['write2_error'] = repr(e)[:300]
         except Exception as e:  # noqa
             res['write_error'] = repr(e)[:300]
             res['write_tb'] = traceback.format_exc()[-1500:]
